@@ -202,11 +202,39 @@ class ModuleInfo:
 class Repo:
     """Parsed view of the repository working tree."""
 
-    def __init__(self, root: str):
+    def __init__(self, root: str, level: int = 0):
         self.root = root
+        self.level = level               # 0: source as written; 1: normal form (see normalize.py)
         self.modules: Dict[str, ModuleInfo] = {}
         self.files_read: List[str] = []
         self._load()
+        if level >= 1:
+            self._normalize()
+
+    def _normalize(self):
+        from . import normalize
+        mods = [m for m in self.modules.values() if m.name != 'setup']
+        normalize.compute_mutators([m.tree for m in mods])
+        helpers = {m.name: normalize._module_helpers(m.tree) for m in mods}
+        bindings = {m.name: normalize._module_bindings(m.tree) for m in mods}
+        import builtins
+        for m in mods:
+            imported = {}
+            for local, (mod, sym) in m.imports.items():
+                if sym and mod in helpers and sym in helpers[mod] and mod != m.name:
+                    h = helpers[mod][sym]
+                    h_locals = {a.arg for a in h.args.args} | normalize.mutated_names(h, calls=False)
+                    free = {n.id for n in ast.walk(h) if isinstance(n, ast.Name)} - h_locals
+                    same = all(hasattr(builtins, x) or
+                               (x in bindings[mod] and bindings[mod].get(x) == bindings[m.name].get(x)
+                                and not bindings[mod][x].startswith('def '))
+                               for x in free)
+                    if same:
+                        imported[local] = h
+            normalize.normalize_module(m.tree, imported)
+            m.functions.clear()
+            m.imports.clear()
+            self._index(m)
 
     # ------------------------------------------------------------------
     def _load(self):
